@@ -218,6 +218,40 @@ def locate(relpath, name, cls=None, key=None, cls_ordinal=0, ordinal=0, params_r
     return hits[ordinal]
 
 
+def inline_member_calls(fn, relpath, cls, skip=()):
+    """Refactoring tolerance: a statement `helper();` that calls a parameterless void member function of the same class is replaced by the helper's
+    body in braces (the helper must not `return`).  Returns (new Func, [names inlined])."""
+    import copy
+    done = []
+    body = fn.body
+    for _ in range(8):
+        hit = None
+        for m in re.finditer(r"(?<![\w.>:])(?:this->)?(\w+)\(\);", body):
+            nm = m.group(1)
+            if nm in skip or nm in ("return", "throw"):
+                continue
+            try:
+                h = locate(relpath, nm, cls=cls)
+            except ExtractionBreak:
+                continue
+            if h.params.strip() or (h.ret and not re.search(r"\bvoid\b", h.ret)):
+                continue
+            if re.search(r"\breturn\b", h.body):
+                raise ExtractionBreak("helper %s::%s() returns early: cannot be inlined" % (cls, nm))
+            hit = (m, nm, h)
+            break
+        if not hit:
+            break
+        m, nm, h = hit
+        body = body[:m.start()] + "{ " + " ".join(h.body.split("\n")) + " }" + body[m.end():]
+        done.append(nm)
+    if not done:
+        return fn, done
+    g = copy.copy(fn)
+    g.body = body
+    return g, done
+
+
 def members(relpath, cls, key=None, cls_ordinal=0):
     """Names of data members declared directly in the class body (depth 0), by regex on
     declarations `Type name;` / `Type name = init;`."""
